@@ -244,12 +244,7 @@ func runC02(c *eng.Ctx) {
 	c.Rule("UNION", famT+".deleteObsoleteFiles{keep-set}", func() { obsoleteKeepSet(c) })
 
 	// ---- 9/10/11. reader cache -----------------------------------------------------------------------------------------
-	c.Rule("ORDER", "kv{pending-output claim is dropped only after the commit that references the file}", func() {
-		f := c.Fn(sfT + ".Commit")
-		neverBeforeDeep(c, f, eng.AnyCallTo("kv.Family.removePendingOutput", famT+".removePendingOutput"), invokeOn(".family", "commitEditLog"), "removePendingOutput", "commitEditLog", 3)
-		m := c.Fn(cjT + ".mergeCompaction")
-		neverBeforeDeep(c, m, eng.AnyCallTo("kv.Family.removePendingOutput", famT+".removePendingOutput"), eng.AnyCallTo("kv.Family.commitEditLog", famT+".commitEditLog"), "removePendingOutput", "commitEditLog", 3)
-	})
+	pendingOutputClaimOrder(c)
 
 	c.Rule("OWNER", "kv/table.Cache.ReleaseReaders{only Snapshot.Close gives the retained readers back}", func() {
 		// every reader a snapshot retains is recorded in s.readers and released exactly once, by Close; a second release on an
@@ -751,4 +746,16 @@ func editLogOwnID(c *eng.Ctx) {
 		}
 	}
 	c.Check(n >= 3, "edit-log-sites-found", nil, nil, "families and flushers create edit logs", fmt.Sprintf("%d sites", n))
+}
+
+// pendingOutputClaimOrder: a new table stays a pending output until the commit that references it is in the version
+// (shared by C02, C01 and C07: a flush whose table is deleted by a concurrent obsolete-file scan acknowledges its sequence
+// for data that no longer exists).
+func pendingOutputClaimOrder(c *eng.Ctx) {
+	c.Rule("ORDER", "kv{pending-output claim is dropped only after the commit that references the file}", func() {
+		f := c.Fn(sfT + ".Commit")
+		neverBeforeDeep(c, f, eng.AnyCallTo("kv.Family.removePendingOutput", famT+".removePendingOutput"), invokeOn(".family", "commitEditLog"), "removePendingOutput", "commitEditLog", 3)
+		m := c.Fn(cjT + ".mergeCompaction")
+		neverBeforeDeep(c, m, eng.AnyCallTo("kv.Family.removePendingOutput", famT+".removePendingOutput"), eng.AnyCallTo("kv.Family.commitEditLog", famT+".commitEditLog"), "removePendingOutput", "commitEditLog", 3)
+	})
 }
